@@ -471,6 +471,9 @@ pub fn gen_value(rng: &mut Rng, depth: usize, finite_only: bool) -> TV {
         _ => {
             let n = rng.below(5);
             let mut r: Vec<(String, TV)> = vec![];
+            if rng.chance(1, 12) {
+                r.push(("__blots_function".into(), TV::Str(rng.pick(FN_STRINGS).to_string())));
+            }
             for _ in 0..n {
                 let k = if rng.chance(2, 3) { rng.pick(KEYS).to_string() } else { gen_string(rng) };
                 if r.iter().any(|(k2, _)| *k2 == k) {
@@ -700,7 +703,7 @@ fn tree_exact(t: &TV, v: &Value, heap: &Heap, path: &str) -> Result<(), String> 
 }
 
 /// generated tree vs printed JSON (numbers through the correctly rounded parser)
-fn tv_vs_jt(t: &TV, j: &JT, path: &str) -> Result<(), (bool, String)> {
+pub fn tv_vs_jt(t: &TV, j: &JT, path: &str) -> Result<(), (bool, String)> {
     match (t, j) {
         (TV::Num(a), JT::Num(tok)) => match jt::num_bits(tok) {
             Some(b) if b == a.to_bits() => Ok(()),
@@ -785,6 +788,9 @@ pub fn gen_doc(rng: &mut Rng, depth: usize, fn_objects: bool) -> JT {
         _ => {
             let n = rng.below(6);
             let mut ms: Vec<(String, JT)> = vec![];
+            if fn_objects && rng.chance(1, 4) {
+                ms.push(("__blots_function".into(), JT::Str(rng.pick(FN_STRINGS).to_string())));
+            }
             for _ in 0..n {
                 let k = if !ms.is_empty() && rng.chance(1, 5) {
                     ms[rng.below(ms.len())].0.clone()          // duplicate key
@@ -1065,6 +1071,12 @@ fn check_binary_batch(ctx: &Ctx, vals: &[TV], dir: &std::path::Path, rep: &mut R
     let mut prog = String::new();
     let mut kept: Vec<&TV> = vec![];
     for v in vals {
+        // a function-shaped record denotes a function (excluded by the property; an
+        // unportable one would make `output r = inputs` fail for the whole batch)
+        if tv_fn_shaped(v) {
+            rep.count("binary.function-shaped-skipped");
+            continue;
+        }
         let src = v.to_source();
         // keep only values whose literal the real evaluator reads as exactly this tree
         let heap = new_heap();
@@ -1201,7 +1213,9 @@ fn check_binary_docs(ctx: &Ctx, rng: &mut Rng, docs: &[JT], dir: &std::path::Pat
 }
 
 fn check_invalid_inputs(ctx: &Ctx, dir: &std::path::Path, rep: &mut Report) {
-    for bad in ["{\"a\":\"\\ud800\"}", "{\"a\":\"\\udc00x\"}", "{\"a\":1e999}", "{\"a\":NaN}", "{\"a\":1,}", "{\"a\"", "[1,2", "{\"a\":01}", "{'a':1}"] {
+    // (text, violates the JSON grammar) — 1e999 is grammatical but out of range
+    for (bad, ungrammatical) in [("{\"a\":\"\\ud800\"}", true), ("{\"a\":\"\\udc00x\"}", true), ("{\"a\":1e999}", false), ("{\"a\":NaN}", true),
+        ("{\"a\":1,}", true), ("{\"a\"", true), ("[1,2", true), ("{\"a\":01}", true), ("{'a':1}", true), ("{\"a\":\"\u{1}\"}", true)] {
         let out = run_blots(&ctx.blots_bin, &["-i".into(), bad.to_string(), "output a = 1".into()], None, dir);
         rep.count("binary.runs");
         rep.case(bad, true);
@@ -1211,7 +1225,7 @@ fn check_invalid_inputs(ctx: &Ctx, dir: &std::path::Path, rep: &mut Report) {
             Some(0) => rep.count("invalid-input.accepted"),
             other => rep.finding("oracle", "panic", bad, &format!("invalid input JSON: exit {:?}: {}", other, out.stderr.chars().take(200).collect::<String>()), "c06.panic"),
         }
-        if jt::parse(bad).is_some() {
+        if ungrammatical && jt::parse(bad).is_some() {
             rep.finding("model", "reference-parser", bad, "the harness' JSON reader accepts an invalid document", "c06.harness.reference-parser");
         }
     }
@@ -1243,7 +1257,7 @@ pub fn run(ctx: &Ctx, rep: &mut Report) {
     }
 
     // (i) trees
-    let n_tree = ctx.budget(2500, 60000);
+    let n_tree = ctx.budget(12000, 250000);
     for i in 0..n_tree {
         let depth = 1 + i % 6;
         let v = if i % 5 == 0 { tv::gen_data(&mut rng, depth.min(4), true) } else { gen_value(&mut rng, depth, i % 7 != 0) };
@@ -1251,7 +1265,7 @@ pub fn run(ctx: &Ctx, rep: &mut Report) {
     }
 
     // documents
-    let n_doc = ctx.budget(1500, 40000);
+    let n_doc = ctx.budget(8000, 160000);
     for i in 0..n_doc {
         let doc = gen_doc(&mut rng, 1 + i % 6, i % 3 == 0);
         let text = doc_text(&doc, &mut rng);
@@ -1266,16 +1280,16 @@ pub fn run(ctx: &Ctx, rep: &mut Report) {
     }
 
     // number text layer
-    check_number_text(&mut rng, ctx.budget(20000, 600000), &mut model, rep);
+    check_number_text(&mut rng, ctx.budget(60000, 2000000), &mut model, rep);
 
     // (ii) the real binary
-    let n_batch = ctx.budget(20, 300);
+    let n_batch = ctx.budget(60, 1200);
     for b in 0..n_batch {
         let vals: Vec<TV> = (0..30).map(|i| gen_value(&mut rng, 1 + (b + i) % 6, true)).collect();
         check_binary_batch(ctx, &vals, &dir, rep);
     }
     check_binary_batch(ctx, &fixed.iter().filter(|v| v.is_data() && all_finite(v)).cloned().collect::<Vec<_>>(), &dir, rep);
-    for b in 0..ctx.budget(20, 300) {
+    for b in 0..ctx.budget(60, 1200) {
         let docs: Vec<JT> = (0..12).map(|i| gen_doc(&mut rng, 1 + (b + i) % 6, false)).collect();
         check_binary_docs(ctx, &mut rng, &docs, &dir, rep);
     }
